@@ -1562,7 +1562,9 @@ class connector( client ):
         mismatch cannot be determined by the collect layer.
 
         """
-        for (idx,req_ctx,dsc,op,req),col in zip(issued, self.collect( timeout=timeout )): # must be "lazy" zip!
+        collected		= self.collect( timeout=timeout )
+        for idx,req_ctx,dsc,op,req in issued:	# must be "lazy": issue one request, then collect its reply
+            col			= next( collected, None ) # collect ceases on timeout/EOF; an issued request got No Reply
             assert col, \
                 "Request: %5d (Context: %10r/%10r) No Reply;\nop: %s\nrequest: %s\ncollected: %r via %r" % (
                     idx, req_ctx, None, parser.enip_format( op ), parser.enip_format( req ), col, self )
